@@ -11,13 +11,13 @@ pub static DEF: CheckDef = CheckDef {
     id: "C16",
     run,
     replay,
-    rule: "(a) every one of the 256 source pages: start a transfer, let it complete in one batch and in 3 split patterns, compare OAM and all other memory with the per-machine-cycle reference (models::dma driving a twin machine's bus); plus, for every page, a source byte ahead of the copy position is changed after k machine cycles for k in {0, 1, 79, 158, 159, 160, 161} (it must land iff it was not yet copied). (b) proptest histories of up to 16 operations over {start(page), advance(m machine cycles, cut points), write(addr, value)} on an MBC1+RAM machine (also with the LCD switched on and positioned anywhere in a frame first), with writes biased into the active source page around the copy position, into OAM, onto bank registers (source in switchable ROM / cartridge RAM) and onto 0xFF46 (restart); after every operation OAM and the complete machine state are compared with the reference, and every advance is also delivered in pieces to a second real instance that must end in the same state. Non-trivial = history with a source write during a transfer, a restart, or an advance split inside a transfer; distinct by hash of the history.",
+    rule: "(a) every one of the 256 source pages: start a transfer, let it complete in one batch and in 3 split patterns, compare OAM and all other memory with the per-machine-cycle reference (models::dma driving a twin machine's bus); plus, for every page, a source byte ahead of the copy position is changed after k machine cycles for k in {0, 1, 79, 158, 159, 160, 161} (it must land iff it was not yet copied). (b) proptest histories of up to 16 operations over {start(page), advance(m machine cycles, cut points), write(addr, value)} on an MBC1+RAM machine (also with the LCD switched on and positioned anywhere in a frame first), with writes biased into the active source page around the copy position, into OAM, onto bank registers (source in switchable ROM / cartridge RAM) and onto 0xFF46 (restart); after every operation OAM and the complete machine state are compared with the reference, and every advance is also delivered in pieces to a second real instance that must end in the same state. Non-trivial = history with a source write during a transfer, a restart, or an advance split inside a transfer; distinct by hash of the history. Program layer (the glue between the CPU loop and the device): generated structured programs (C04's generator with the device fragments weighted up: DMA started inline and left running under register code, a long straight block, EI;HALT and STOP; DMA with the HRAM wait loop; stores into OAM and into the source page) run on a whole core in three stepping modes (interpreter instruction-stepped, interpreter block-stepped, jit block-stepped); the reference machine says which bus writes each step made, how many clocks it is worth and which request was acknowledged, and the independent model fed with exactly that must agree with all 160 OAM bytes (bytes copied so far = machine cycles delivered since the 0xFF46 write, each read through the core's memory map when copied) after every step.",
     assumptions: &[
         "models::dma (byte k is copied in machine cycle k+1 after the write to 0xFF46, source read at that time)",
         "source bytes that are live device registers (page 0xFF, offsets 0x00-0x7F) are not compared (their value depends on when within the batch they are read)",
         "memory behind the bus (echo pages, unusable area, bank mapping) is whatever the repository's bus returns, on both sides (C10); the reference stores the transferred bytes into OAM directly, not through the emulator's write path",
     ],
-    required_classes: &["all-pages", "source-write-ahead-lands", "source-write-behind-ignored", "change-at-159", "change-at-160", "restart", "split-inside-transfer", "lcd-on-mid-frame", "source-in-banked-rom", "generated-history"],
+    required_classes: &["all-pages", "source-write-ahead-lands", "source-write-behind-ignored", "change-at-159", "change-at-160", "restart", "split-inside-transfer", "lcd-on-mid-frame", "source-in-banked-rom", "generated-history", "program-dma-completed", "program-dma-bytes-while-halted-or-stopped", "program-dma-bytes-in-long-block", "program-mode-block-jit"],
     exhaustive: false,
 };
 
@@ -347,9 +347,14 @@ fn run(rec: &mut Rec) {
         }
         run_case(&mut cell.borrow_mut(), ops, rec, counting)
     });
+    // program layer: the transfer as a whole core drives it
+    crate::sysobs::program_layer(rec, "program-dma", &[crate::sysobs::Dev::Dma], crate::prog::Focus { dma: 3, timer: 1, ..Default::default() }, rec.ctx.tier.pick(250u32, 6000), rec.ctx.tier.pick(2500u32, 10000), 1, program_nontrivial);
 }
 
 fn replay(case: &Value, rec: &mut Rec) {
+    if crate::sysobs::replay_program(case, rec, &[crate::sysobs::Dev::Dma]) {
+        return;
+    }
     let ops: Vec<Op> = match case.get("ops").cloned().and_then(|v| serde_json::from_value(v).ok()) {
         Some(c) => c,
         None => {
@@ -361,4 +366,8 @@ fn replay(case: &Value, rec: &mut Rec) {
     if let Err(f) = run_case(&mut w, &ops, rec, true) {
         rec.violation(&f.sig, case_json(&ops), f.detail);
     }
+}
+
+fn program_nontrivial(o: &crate::sysobs::RunOutcome) -> bool {
+    o.stats.dma_completed > 0
 }
